@@ -394,7 +394,7 @@ class ExprMixin:
         if isinstance(a.ty, TOpt) and isinstance(op, (ast.Add, ast.Sub)):
             return self.binop(op, self.coerce(a, a.ty.elem, node, "left operand"), b, node, st)
         if isinstance(a.ty, TList) and a.ty == b.ty and isinstance(op, ast.Add):
-            return self.list_concat(a, b)
+            return self.list_concat(a, b, st)
         if a.ty == TString and b.ty == TString and isinstance(op, ast.Add):
             return Val(TString, z3.Concat(a.t, b.t))
         if isinstance(a.ty, TObj) and isinstance(op, (ast.BitAnd, ast.BitOr)):
@@ -407,10 +407,18 @@ class ExprMixin:
             return h(self, a, b, node, st)
         raise Unsupported("binary %s on %s, %s" % (type(op).__name__, a.ty, b.ty), node)
 
-    def list_concat(self, a, b):
+    def list_concat(self, a, b, st=None):
         j = z3.Int(fresh_name("j"))
-        arr = z3.Lambda([j], z3.If(j < l_len(a.t), l_at(a.t, j), l_at(b.t, j - l_len(a.t))))
-        return Val(a.ty, l_mk(a.ty, l_len(a.t) + l_len(b.t), arr))
+        if st is None:
+            arr = z3.Lambda([j], z3.If(j < l_len(a.t), l_at(a.t, j), l_at(b.t, j - l_len(a.t))))
+            return Val(a.ty, l_mk(a.ty, l_len(a.t) + l_len(b.t), arr))
+        R = z3.Const(fresh_name("cat"), sort_of(a.ty))
+        na, nb = l_len(a.t), l_len(b.t)
+        self.fact(st, l_len(R) == na + nb)
+        self.fact(st, z3.ForAll([j], z3.Implies(z3.And(0 <= j, j < na), l_at(R, j) == l_at(a.t, j)), patterns=[l_at(R, j), l_at(a.t, j)]))
+        self.fact(st, z3.ForAll([j], z3.Implies(z3.And(0 <= j, j < nb), l_at(R, na + j) == l_at(b.t, j)), patterns=[l_at(b.t, j)]))
+        self.fact(st, z3.ForAll([j], z3.Implies(z3.And(na <= j, j < na + nb), l_at(R, j) == l_at(b.t, j - na)), patterns=[l_at(R, j)]))
+        return Val(a.ty, R)
 
     # -- displays ------------------------------------------------------------
     def e_Tuple(self, node, st):
@@ -529,7 +537,11 @@ class ExprMixin:
         if sl.lower is None:
             return Val(ty, l_mk(ty, ln, l_arr(base.t)))
         j = z3.Int(fresh_name("j"))
-        return Val(ty, l_mk(ty, ln, z3.Lambda([j], l_at(base.t, j + lo))))
+        R = z3.Const(fresh_name("slice"), sort_of(ty))
+        self.fact(st, l_len(R) == ln)
+        self.fact(st, z3.ForAll([j], z3.Implies(z3.And(0 <= j, j < ln), l_at(R, j) == l_at(base.t, j + lo)), patterns=[l_at(R, j)]))
+        self.fact(st, z3.ForAll([j], z3.Implies(z3.And(lo <= j, j < lo + ln), l_at(R, j - lo) == l_at(base.t, j)), patterns=[l_at(base.t, j)]))
+        return Val(ty, R)
 
     def e_JoinedStr(self, node, st):
         raise Unsupported("f-string", node)
